@@ -1,25 +1,66 @@
 #!/usr/bin/env python3
-"""Development tool: apply each seeded change to /repo, run the property's
-check (and optionally others), undo the change. Usage: seedtest.py [ids..] [--no-corpus] [--also C02,C14]"""
-import json, os, subprocess, sys
+"""Development tool: run a property's check against each seeded change.
+
+Each change is applied in a scratch worktree of /repo (under /tmp/st, removed afterwards) and the check runs against that
+worktree (VERIF_REPO) with its own work/target directories (VERIF_TAG), so /repo itself is never modified and several seeds
+can be tried in parallel.
+Usage: seedtest.py [ids..] [--no-corpus] [--jobs N] [--props C02,C14 (run these properties' checks instead of the seed's own)]"""
+import concurrent.futures, json, os, shutil, subprocess, sys
 VERIF = os.path.dirname(os.path.dirname(os.path.abspath(__file__)))
-args = [a for a in sys.argv[1:] if not a.startswith('--')]
-flags = [a for a in sys.argv[1:] if a.startswith('--no-corpus')]
-ids = args or sorted(os.listdir(os.path.join(VERIF, 'seeded')))
-res = {}
-for sid in ids:
-    patch = os.path.join(VERIF, 'seeded', sid, 'patch.diff')
-    assert subprocess.run(['git', '-C', '/repo', 'status', '--porcelain', '--untracked-files=no'], capture_output=True, text=True).stdout.strip() == '', 'repo dirty'
-    r = subprocess.run(['git', '-C', '/repo', 'apply', patch], capture_output=True, text=True)
-    if r.returncode != 0:
-        res[sid] = 'patch does not apply: ' + r.stderr[:200]
-        continue
+argv = sys.argv[1:]
+jobs, props = 3, None
+if '--jobs' in argv:
+    i = argv.index('--jobs'); jobs = int(argv[i + 1]); del argv[i:i + 2]
+if '--props' in argv:
+    i = argv.index('--props'); props = argv[i + 1].split(','); del argv[i:i + 2]
+flags = [a for a in argv if a.startswith('--')]
+ids = [a for a in argv if not a.startswith('--')] or sorted(os.listdir(os.path.join(VERIF, 'seeded')))
+
+
+def one(sid):
+    d = os.path.join(VERIF, 'seeded', sid)
+    meta = json.load(open(os.path.join(d, 'meta.json')))
+    wt = '/tmp/st/' + sid
+    tag = '-st-' + sid
+    subprocess.run(['git', '-C', '/repo', 'worktree', 'remove', '--force', wt], capture_output=True)
+    os.makedirs('/tmp/st', exist_ok=True)
+    subprocess.run(['git', '-C', '/repo', 'worktree', 'add', '-q', '--detach', wt, 'HEAD'], check=True)
+    res = {}
     try:
-        p = subprocess.run([os.path.join(VERIF, 'check'), sid] + flags, capture_output=True, text=True, cwd=VERIF)
-        v = [l for l in p.stdout.split('\n') if l.startswith('VIOLATION')]
-        res[sid] = dict(exit=p.returncode, violations=len(v), with_input=sum(1 for l in v if 'no-failing-input-found' not in l),
-                        last=p.stdout.strip().split('\n')[-1][:160])
+        r = subprocess.run(['git', 'apply', os.path.join(d, 'patch.diff')], cwd=wt, capture_output=True, text=True)
+        if r.returncode != 0:
+            return sid, 'patch does not apply: ' + r.stderr[:200]
+        env = dict(os.environ, VERIF_REPO=wt, VERIF_TAG=tag)
+        for prop in (props or [meta.get('property', sid)[:3]]):
+            p = subprocess.run([os.path.join(VERIF, 'check'), prop] + flags, capture_output=True, text=True, cwd=VERIF, env=env)
+            v = [l for l in p.stdout.split('\n') if l.startswith('VIOLATION')]
+            wi = [l for l in v if 'no-failing-input-found' not in l]
+            rep = None
+            if wi:
+                try:
+                    rp = json.load(open(wi[0].split('replay=')[1].split(' ')[0]))
+                    fi = rp.get('failing_input') or {}
+                    rep = dict(item=fi.get('item_source', '')[:300], op=fi.get('operation'), operands=fi.get('operands'),
+                               expected=str(fi.get('expected_by_specification'))[:200], observed=str(fi.get('observed_with_real_macro'))[:300])
+                except Exception as e:
+                    rep = repr(e)
+            res[prop] = dict(exit=p.returncode, violations=len(v), with_input=len(wi), last=p.stdout.strip().split('\n')[-1][:160], replay=rep)
     finally:
-        subprocess.run(['git', '-C', '/repo', 'checkout', '--', '.'], check=True)
-    print(sid, res[sid], flush=True)
-json.dump(res, open(os.path.join(VERIF, 'work', 'seedtest.json'), 'w'), indent=1)
+        subprocess.run(['git', '-C', '/repo', 'worktree', 'remove', '--force', wt], capture_output=True)
+        shutil.rmtree(os.path.join(VERIF, 'work' + tag), ignore_errors=True)
+        shutil.rmtree(os.path.join(VERIF, 'target' + tag), ignore_errors=True)
+    return sid, res
+
+
+out = {}
+with concurrent.futures.ThreadPoolExecutor(max_workers=jobs) as ex:
+    for sid, res in ex.map(one, ids):
+        out[sid] = res
+        print(sid, json.dumps(res), flush=True)
+os.makedirs(os.path.join(VERIF, 'work'), exist_ok=True)
+prev = {}
+pp = os.path.join(VERIF, 'work', 'seedtest.json')
+if os.path.exists(pp):
+    prev = json.load(open(pp))
+prev.update(out)
+json.dump(prev, open(pp, 'w'), indent=1)
